@@ -7,9 +7,16 @@ cached build-side dictionary).  Oracle: (1) nested-loop relational reference (he
 equals the first, (4) header and multiset equal those of the sort-merge counterpart run on the same inputs.
 Lookups: every table of <=4 (5) rows over K6 x the six lookup functions x key single/compound x value forms x
 strict; oracle: reference dictionary (all rows / values per key in table order; *one = first); strict=True
-raises DuplicateKeyError iff a key repeats, otherwise returns the same dictionary.
+raises DuplicateKeyError iff a key repeats, otherwise returns the same dictionary; x dictionary= omitted /
+empty dict / pre-filled dict / copy-on-read persistent-style mapping.
+Further axes: the field-NAMING schemes of C06 (substring / prefix / str()-equal field names) for all hash joins;
+ragged key-sorted inputs with the counterpart called presorted=True; edit-between-passes histories over editable
+list sources for hashjoin/hashleftjoin/hashrightjoin x cache (cache=False: every pass current; cache=True: probe
+side current, build side current or cached).
 """
+import collections.abc
 import itertools
+import pickle
 
 import petl as etl
 from petl.errors import DuplicateKeyError
@@ -29,16 +36,28 @@ RULE = ('joins: the C06 pair space (every pair of tables whose key vectors are A
         'transition; per state: header + type-faithful row multiset vs the relational reference, streamed-side '
         'projection vs that side\'s rows in input order, pass 2,3 == pass 1, and header + multiset vs the '
         'sort-merge counterpart (skipped only where the counterpart lacks the argument: join has no `missing`, '
-        'so ragged x missing=text is not compared for hashjoin).  Non-trivial join case: both sides have rows, '
+        'so ragged x missing=text is not compared for hashjoin); the C06 field-NAMING schemes (key / non-key names '
+        'that are substrings, prefixes, superstrings, equal after str(), right field named like the left key) for all '
+        'five hash joins; ragged key-sorted inputs with the counterpart called with presorted=True.  '
+        'edit-between-passes: hashjoin hashleftjoin hashrightjoin over editable list sources, ALL histories '
+        '(contents before, contents after) with each side ranging over every key vector of length 0..2 over '
+        '{None,i1} (thorough +s1), x cache: pass, replace contents of either/both sides, pass, pass; cache=False: '
+        'every pass is the relational result on the CURRENT contents; cache=True: probe side current, build side '
+        'current or the one cached at pass 1.  Non-trivial join case: both sides have rows, '
         'some pair matches, some row has no partner.  lookups: every rectangular table with <=4 rows (thorough 5) '
         'whose key column ranges over K6 (compound: two key columns, <=3 rows) x lookup lookupone dictlookup '
-        'dictlookupone recordlookup recordlookupone x value default / one field / two fields x strict; '
+        'dictlookupone recordlookup recordlookupone x value default / one field / two fields x strict x dictionary= '
+        'in {omitted, empty dict, dict pre-filled with foreign keys (must stay), copy-on-read persistent-style '
+        'mapping (pickle round trip on set/get, as shelve without writeback)}; '
         'non-trivial: >=2 rows.  Excluded: unhashable keys (by the statement), tables without header row, '
         'ragged tables for the lookups and anti-joins (the documentation defines no result), presorted (no such '
         'argument).')
 ASSUMPTIONS = ['tables have at most 3 data rows per side (joins) / 5 rows (lookups); keys from a 3-6 value alphabet '
                '(None, two ints, a float equal to one int, two strings)',
-               'sources are immutable between passes (changing sources are C11)',
+               'sources change only in the edit-between-passes histories (one edit, whole-contents replacement, '
+               'tables <=2 rows); richer histories are C11',
+               'a pre-filled dictionary= only holds keys that do not occur in the table (behaviour on colliding '
+               'pre-existing keys is not documented)',
                'dictionary key identity (1 vs 1.0 as the stored key object) and dictionary insertion order are '
                'not observed; values and cells are compared type-faithfully']
 
@@ -55,7 +74,7 @@ def build_space(tier, seed):
             ops = [o for o in ops if o in J.TAKES_MISSING]
         if name == 'prefix':
             ops = [o for o in ops if o in J.TAKES_PREFIX]
-        if name == 'ragged':
+        if name in ('ragged', 'ragged-presorted'):
             ops = [o for o in ops if o in J.SQUARES_UP]
         v['ops'] = ops
     return V
@@ -106,6 +125,9 @@ def setup(tier, seed):
     _S.clear()
     _S['space'] = build_space(tier, seed)
     _S['lookups'] = lookup_tables(tier, seed)
+    _S['names'] = J.name_schemes(tier, seed)
+    _S['namedata'] = J.name_data(tier, seed)
+    _S['edit'] = edit_tables(tier, seed)
 
 
 def bounds(tier, seed):
@@ -115,8 +137,14 @@ def bounds(tier, seed):
         b[name] = {'left_tables': len(v['L']), 'right_tables': len(v['R']), 'argument_forms': len(v['kw']),
                    'operators': len(v['ops']), 'states': len(v['L']) * len(v['R']) * len(v['kw']) * ncfg,
                    'passes': PASSES}
+    lv, rv = _S['namedata']
+    b['field-naming'] = {'schemes': len(_S['names']), 'left_key_vectors': len(lv), 'right_key_vectors': len(rv),
+                         'operators': len(J.HASH_OPS)}
+    b['edit-between-passes'] = {'contents_per_side': len(_S['edit']), 'histories': len(_S['edit']) ** 4,
+                                'operators': len(EDIT_OPS), 'cache': 2, 'passes': 3}
+    b['lookup_dictionary_modes'] = [str(m) for m in DICT_MODES]
     b['lookups'] = {'tables': len(_S['lookups']), 'call_forms': len(LOOKUP_FORMS),
-                    'cases': len(_S['lookups']) * len(LOOKUP_FORMS)}
+                    'cases': len(_S['lookups']) * len(LOOKUP_FORMS) * len(DICT_MODES)}
     b['key_alphabet'] = [repr(x) for x in spaces.K6(seed)]
     return b
 
@@ -131,8 +159,16 @@ def items(tier, seed):
         size = max(1, TARGET // max(1, per_left))
         for lo in range(0, len(v['L']), size):
             out.append(('join', name, lo, min(len(v['L']), lo + size)))
+    lv, rv = _S['namedata']
+    size = max(1, TARGET // (len(lv) * len(rv) * len(_S['names'][0]['kw'])))
+    for lo in range(0, len(_S['names']), size):
+        out.append(('names', 'field-naming', lo, min(len(_S['names']), lo + size)))
+    npairs = len(_S['edit']) ** 2
+    size = max(1, 6000 // (npairs * len(EDIT_OPS) * 2))
+    for lo in range(0, npairs, size):
+        out.append(('edit', 'edit-between-passes', lo, min(npairs, lo + size)))
     n = len(_S['lookups'])
-    size = 1500
+    size = 500
     for lo in range(0, n, size):
         out.append(('lookup', 'lookups', lo, min(n, lo + size)))
     return out
@@ -176,7 +212,8 @@ def check_hash(op, left, right, kw, passes=PASSES, stats=None):
     """All failures of hash operator `op` on (left, right, kw): list of (group, expected, observed, message).
     kw may contain cache=..."""
     fails = []
-    rkw = {k: v for k, v in kw.items() if k != 'cache'}
+    rkw = {k: v for k, v in kw.items() if k not in ('cache', 'presorted')}
+    kw = {k: v for k, v in kw.items() if k != 'presorted'}      # the hash joins have no such argument
     hdr, rows, lidx = J.relational(op, left, right, stream=J.STREAMED[op], **rkw)
     exp = [hdr] + rows
     outs = []
@@ -262,11 +299,72 @@ def _norm(v):
     return v
 
 
-def check_lookup(fn, table, key, value, strict):
+class CopyStore(collections.abc.MutableMapping):
+    """A persistent-style mapping (the contract of shelve without writeback, the documented use of
+    `dictionary=`): values are serialised on assignment and a fresh copy is handed out on every access, so a
+    value mutated after it was fetched is lost unless it is assigned back.  Values that cannot be pickled
+    (petl Records) are snapshotted container-wise instead."""
+
+    def __init__(self):
+        self._d = {}
+
+    @staticmethod
+    def _snap(v):
+        if isinstance(v, list):
+            return [CopyStore._snap(x) for x in v]
+        if type(v) is dict:
+            return dict(v)
+        return v
+
+    def __getitem__(self, k):
+        kind, blob = self._d[k]
+        return pickle.loads(blob) if kind == 'p' else self._snap(blob)
+
+    def __setitem__(self, k, v):
+        try:
+            blob = pickle.dumps(v)
+            if J.canon(_norm(pickle.loads(blob))) != J.canon(_norm(v)):
+                raise ValueError('does not survive pickling')
+            self._d[k] = ('p', blob)
+        except Exception:
+            self._d[k] = ('s', self._snap(v))
+
+    def __delitem__(self, k):
+        del self._d[k]
+
+    def __iter__(self):
+        return iter(self._d)
+
+    def __len__(self):
+        return len(self._d)
+
+
+DICT_MODES = (None, 'dict', 'prefilled', 'copying')
+FOREIGN = [(('foreign', 0), ['kept']), ('~other~', 'kept too')]    # keys that no enumerated table contains
+
+
+def make_dictionary(mode):
+    if mode is None:
+        return None
+    if mode == 'dict':
+        return {}
+    if mode == 'prefilled':
+        return dict((k, v if not isinstance(v, list) else list(v)) for k, v in FOREIGN)
+    if mode == 'copying':
+        return CopyStore()
+    raise ValueError(mode)
+
+
+def check_lookup(fn, table, key, value, strict, dmode=None):
     """None, or (signature, expected, observed, message)."""
     pairs, dup = J.lookup_ref(fn, table, key, value)
     args = [table, key]
     kw = {}
+    if dmode is not None:
+        kw['dictionary'] = make_dictionary(dmode)
+    tpairs = pairs
+    if dmode == 'prefilled':
+        pairs = list(FOREIGN) + pairs       # entries already in the caller's dictionary stay as they are
     if fn in ('lookup', 'lookupone') and value is not None:
         kw['value'] = value
     if strict is not None:
@@ -301,7 +399,7 @@ def check_lookup(fn, table, key, value, strict):
     if fn.startswith('record'):
         # a record gives access to its cells by field name
         hdr = [str(f) for f in table[0]]
-        for k, want in pairs:
+        for k, want in tpairs:
             recs = d[k] if not fn.endswith('one') else [d[k]]
             wants = want if not fn.endswith('one') else [want]
             for rec, w in zip(recs, wants):
@@ -324,10 +422,114 @@ def _show(d):
 
 
 # ---------------------------------------------------------------------------------------------
+# edit-between-passes axis: history  pass, edit(probe and/or build side), pass, pass  on editable list sources
+# ---------------------------------------------------------------------------------------------
+
+EDIT_OPS = ('hashjoin', 'hashleftjoin', 'hashrightjoin')
+BUILD_SIDE = {'hashjoin': 'right', 'hashleftjoin': 'right', 'hashrightjoin': 'left'}
+EDIT_KW = {'key': 'k'}
+
+
+def edit_tables(tier, seed):
+    """Key vectors for the contents of either source before / after the edit."""
+    r = spaces.reps(seed)
+    alpha = [None, r['i1']] if tier == 'quick' else [None, r['i1'], r['s1']]
+    return J.key_tuples(alpha, 2)
+
+
+def edit_versions(l0, r0, l1, r1):
+    """Tables before and after the edit; a side whose key vector does not change is not edited at all, an edited
+    side gets fresh row ids (so stale rows are recognisable even when the keys are the same)."""
+    L0 = J.rect_table(('k', 'lid'), [0], l0, 'L')
+    R0 = J.rect_table(('k', 'rid'), [0], r0, 'R')
+    L1 = L0 if l1 == l0 else J.rect_table(('k', 'lid'), [0], l1, 'M')
+    R1 = R0 if r1 == r0 else J.rect_table(('k', 'rid'), [0], r1, 'S')
+    return L0, R0, L1, R1
+
+
+def _agrees(op, out, left, right, kw):
+    rkw = {k: v for k, v in kw.items() if k != 'cache'}
+    hdr, rows, _ = J.relational(op, left, right, stream=J.STREAMED[op], **rkw)
+    if not out or tuple(out[0]) != hdr:
+        return False
+    missing, extra = J.multiset_diff(rows, out[1:])
+    if missing or extra:
+        return False
+    return (J.streamed_projection(op, out[1:], left, right, **rkw) ==
+            J.streamed_projection(op, rows, left, right, **rkw))
+
+
+def check_edit(op, kw, l0, r0, l1, r1, stats=None):
+    """None or (signature, expected, observed, message).  cache=False: every pass is the relational result on
+    the CURRENT contents.  cache=True: the streamed (probe) side must be current, the build side may be the one
+    cached at the first pass or the current one."""
+    L0, R0, L1, R1 = edit_versions(l0, r0, l1, r1)
+    lsrc, rsrc = list(L0), list(R0)
+    cache = kw.get('cache', True)
+    rkw = {k: v for k, v in kw.items() if k != 'cache'}
+    outs = []
+    try:
+        view = getattr(etl, op)(lsrc, rsrc, **kw)
+        outs.append(_rows(view))
+        lsrc[:] = L1
+        rsrc[:] = R1
+        outs.append(_rows(view))
+        outs.append(_rows(view))
+        if stats is not None:
+            stats['transitions'] += 3
+    except Exception as e:
+        return ('raises %s' % type(e).__name__, None, _exc(e),
+                '%s raised %s in pass %d of the history pass, edit, pass, pass' % (op, type(e).__name__, len(outs) + 1))
+    if not _agrees(op, outs[0], L0, R0, kw):
+        return ('first pass differs from the reference', [J.relational(op, L0, R0, **rkw)[0]] +
+                J.relational(op, L0, R0, **rkw)[1], outs[0], '%s: pass 1 over editable sources is wrong' % op)
+    if cache:
+        allowed = [(L1, R1), (L1, R0) if BUILD_SIDE[op] == 'right' else (L0, R1)]
+    else:
+        allowed = [(L1, R1)]
+    for p in (1, 2):
+        if not any(_agrees(op, outs[p], l, r, kw) for l, r in allowed):
+            exp = [[J.relational(op, l, r, **rkw)[0]] + J.relational(op, l, r, **rkw)[1] for l, r in allowed]
+            what = ('is not the relational result on the current contents' if not cache else
+                    'matches neither the current contents nor current probe side + build side cached at pass 1')
+            return ('pass after an edit of the sources %s (cache=%r)' % (what, cache), exp, outs[p],
+                    '%s(cache=%r): pass %d after the edit %s' % (op, cache, p + 1, what))
+    return None
+
+
+def run_edit(lo, hi, acc):
+    vecs = _S['edit']
+    pairs = list(itertools.product(vecs, repeat=2))
+    stats = {'transitions': 0}
+    for l0, r0 in pairs[lo:hi]:
+        for l1, r1 in pairs:
+            for op in EDIT_OPS:
+                build_changed = (r0 != r1) if BUILD_SIDE[op] == 'right' else (l0 != l1)
+                for cache in (False, True):
+                    kw = dict(EDIT_KW, cache=cache)
+                    acc.states += 1
+                    acc.evals += 3
+                    acc.counters['edit:' + op] += 1
+                    if build_changed:
+                        acc.nontrivial += 1
+                        acc.counters['nontrivial-edit:' + op] += 1
+                    r = check_edit(op, kw, l0, r0, l1, r1, stats)
+                    acc.outcome(('edit', op, cache, len(l0), len(r1), r is None))
+                    if r is not None:
+                        acc.violation('%s | %s' % (op, r[0]),
+                                      {'kind': 'edit', 'op': op, 'kwargs': kw, 'l0': l0, 'r0': r0, 'l1': l1,
+                                       'r1': r1}, r[1], r[2], r[3])
+    acc.transitions += stats['transitions']
+
+
+# ---------------------------------------------------------------------------------------------
 # replay / run
 # ---------------------------------------------------------------------------------------------
 
 def replay(case):
+    if case['kind'] == 'edit':
+        r = check_edit(case['op'], case['kwargs'], case['l0'], case['r0'], case['l1'], case['r1'])
+        return None if r is None else (r[1], r[2], r[0] + ': ' + r[3])
     if case['kind'] == 'hash':
         fails, good = check_hash(case['op'], case['left'], case['right'], case['kwargs'])
         if case.get('clause') == 'counterpart':
@@ -337,10 +539,46 @@ def replay(case):
             return None
         f = fails[0]
         return (f[1], f[2], f[0] + ': ' + f[3])
-    r = check_lookup(case['fn'], case['table'], case['key'], case['value'], case['strict'])
+    r = check_lookup(case['fn'], case['table'], case['key'], case['value'], case['strict'], case.get('dmode'))
     if r is None:
         return None
     return (r[1], r[2], r[0] + ': ' + r[3])
+
+
+def _do_pair(acc, name, left, right, kw, ops, allkw, stats):
+    nt = J.nontrivial_pair(left, right, kw)
+    for op in ops:
+        kw1 = kw
+        drop = [k for k in kw if (k == 'missing' and op not in J.TAKES_MISSING) or
+                (k in ('lprefix', 'rprefix') and op not in J.TAKES_PREFIX)]
+        if drop:
+            kw1 = {k: x for k, x in kw.items() if k not in drop}
+            if kw1 in allkw:
+                continue
+        good = None
+        for cache in ((True, False) if op in J.TAKES_CACHE else (None,)):
+            kw2 = dict(kw1)
+            if cache is not None:
+                kw2['cache'] = cache
+            acc.states += 1
+            acc.evals += 3          # reference, streamed order, passes
+            acc.counters['op:' + op] += 1
+            if nt:
+                acc.nontrivial += 1
+                acc.counters['nontrivial:' + op] += 1
+            fails, good = check_hash(op, left, right, kw2, stats=stats)
+            acc.outcome((op, len(left), len(right), len(fails)))
+            for g, e, o, m in fails:
+                acc.violation(g, {'kind': 'hash', 'variant': name, 'op': op, 'left': left,
+                                  'right': right, 'kwargs': kw2, 'group': g}, e, o, m)
+        # differential clause, once per (pair, arguments, operator), with the last configuration
+        if counterpart_kwargs(op, left, right, kw2) is not None:
+            acc.evals += 1
+            stats['transitions'] += 1
+            acc.counters['counterpart:' + J.COUNTERPART[op]] += 1
+            for g, e, o, m in check_counterpart(op, left, right, kw2, good):
+                acc.violation(g, {'kind': 'hash', 'clause': 'counterpart', 'variant': name, 'op': op,
+                                  'left': left, 'right': right, 'kwargs': kw2, 'group': g}, e, o, m)
 
 
 def run_item(item, acc):
@@ -348,61 +586,53 @@ def run_item(item, acc):
     if kind == 'lookup':
         for key, table in _S['lookups'][lo:hi]:
             for fn, value, strict in LOOKUP_FORMS:
-                acc.evals += 1
-                acc.states += 1
-                acc.transitions += 1
-                acc.counters['op:' + fn] += 1
-                if len(table) > 2:
-                    acc.nontrivial += 1
-                    acc.counters['nontrivial:' + fn] += 1
-                r = check_lookup(fn, table, key, value, strict)
-                acc.outcome((fn, strict, len(table), r is None))
-                if r is not None:
-                    form = '%s(%s%s)' % (fn, 'value' if value is not None else '',
-                                         (', ' if value is not None else '') + 'strict' if strict else '')
-                    acc.violation('%s | %s' % (form, r[0]),
-                                  {'kind': 'lookup', 'fn': fn, 'table': table, 'key': key, 'value': value,
-                                   'strict': strict}, r[1], r[2], r[3])
+                base_sig = None
+                for dmode in DICT_MODES:
+                    acc.evals += 1
+                    acc.states += 1
+                    acc.transitions += 1
+                    acc.counters['op:' + fn] += 1
+                    acc.counters['dictionary=%s' % dmode] += 1
+                    if len(table) > 2:
+                        acc.nontrivial += 1
+                        acc.counters['nontrivial:' + fn] += 1
+                    r = check_lookup(fn, table, key, value, strict, dmode)
+                    acc.outcome((fn, strict, len(table), r is None))
+                    if dmode is None:
+                        base_sig = r[0] if r is not None else None
+                    if r is not None:
+                        # a failure that the default call shows too is not specific to the dictionary argument
+                        tagged = dmode is not None and r[0] != base_sig
+                        form = '%s(%s)' % (fn, ', '.join(
+                            ([] if value is None else ['value']) + (['strict'] if strict else []) +
+                            (['dictionary=<%s>' % dmode] if tagged else [])))
+                        acc.violation('%s | %s' % (form, r[0]),
+                                      {'kind': 'lookup', 'fn': fn, 'table': table, 'key': key, 'value': value,
+                                       'strict': strict, 'dmode': dmode}, r[1], r[2], r[3])
         if lo == 0:
             key, table = _S['lookups'][min(len(_S['lookups']) - 1, 300)]
             acc.sample({'lookup_table': table, 'key': key, 'reference_lookup': J.lookup_ref('lookup', table, key)[0]}, 1)
         return
-    v = _S['space'][name]
+    if kind == 'edit':
+        run_edit(lo, hi, acc)
+        return
     stats = {'transitions': 0}
+    if kind == 'names':
+        lv, rv = _S['namedata']
+        for sc in _S['names'][lo:hi]:
+            for lvec in lv:
+                left = J.tagged_table(sc['lhdr'], sc['lk'], lvec, 'L')
+                for rvec in rv:
+                    right = J.tagged_table(sc['rhdr'], sc['rk'], rvec, 'R')
+                    for kw in sc['kw']:
+                        _do_pair(acc, 'names:' + sc['form'], left, right, kw, J.HASH_OPS, sc['kw'], stats)
+        acc.transitions += stats['transitions']
+        return
+    v = _S['space'][name]
     for left in v['L'][lo:hi]:
         for right in v['R']:
             for kw in v['kw']:
-                nt = J.nontrivial_pair(left, right, kw)
-                for op in v['ops']:
-                    kw1 = kw
-                    if 'missing' in kw and op not in J.TAKES_MISSING:
-                        kw1 = {k: x for k, x in kw.items() if k != 'missing'}
-                        if kw1 in v['kw']:
-                            continue
-                    good = None
-                    for cache in ((True, False) if op in J.TAKES_CACHE else (None,)):
-                        kw2 = dict(kw1)
-                        if cache is not None:
-                            kw2['cache'] = cache
-                        acc.states += 1
-                        acc.evals += 3          # reference, streamed order, passes
-                        acc.counters['op:' + op] += 1
-                        if nt:
-                            acc.nontrivial += 1
-                            acc.counters['nontrivial:' + op] += 1
-                        fails, good = check_hash(op, left, right, kw2, stats=stats)
-                        acc.outcome((op, len(left), len(right), len(fails)))
-                        for g, e, o, m in fails:
-                            acc.violation(g, {'kind': 'hash', 'variant': name, 'op': op, 'left': left,
-                                              'right': right, 'kwargs': kw2, 'group': g}, e, o, m)
-                    # differential clause, once per (pair, arguments, operator), with the last configuration
-                    if counterpart_kwargs(op, left, right, kw2) is not None:
-                        acc.evals += 1
-                        stats['transitions'] += 1
-                        acc.counters['counterpart:' + J.COUNTERPART[op]] += 1
-                        for g, e, o, m in check_counterpart(op, left, right, kw2, good):
-                            acc.violation(g, {'kind': 'hash', 'clause': 'counterpart', 'variant': name, 'op': op,
-                                              'left': left, 'right': right, 'kwargs': kw2, 'group': g}, e, o, m)
+                _do_pair(acc, name, left, right, kw, v['ops'], v['kw'], stats)
     acc.transitions += stats['transitions']
     if lo == 0:
         left, right = v['L'][min(len(v['L']) - 1, 7)], v['R'][min(len(v['R']) - 1, 9)]
